@@ -530,6 +530,32 @@ class Index:
             if isinstance(expr.op, ast.Mult):
                 return l * r
             raise ValueError("binop")
+        if isinstance(expr, ast.Compare) and len(expr.ops) == 1:
+            l, r = ev(expr.left), ev(expr.comparators[0])
+            op = expr.ops[0]
+            table = {ast.Eq: lambda: l == r, ast.NotEq: lambda: l != r, ast.Lt: lambda: l < r, ast.LtE: lambda: l <= r,
+                     ast.Gt: lambda: l > r, ast.GtE: lambda: l >= r, ast.In: lambda: l in r, ast.NotIn: lambda: l not in r,
+                     ast.Is: lambda: l is r, ast.IsNot: lambda: l is not r}
+            if type(op) in table:
+                return table[type(op)]()
+            raise ValueError("compare")
+        if isinstance(expr, ast.IfExp):
+            return ev(expr.body) if ev(expr.test) else ev(expr.orelse)
+        if isinstance(expr, ast.BoolOp):
+            vals = [ev(v) for v in expr.values]
+            if isinstance(expr.op, ast.And):
+                out = True
+                for v in vals:
+                    out = v
+                    if not v:
+                        break
+                return out
+            out = False
+            for v in vals:
+                out = v
+                if v:
+                    break
+            return out
         if isinstance(expr, ast.UnaryOp) and isinstance(expr.op, ast.USub):
             return -ev(expr.operand)
         if isinstance(expr, ast.UnaryOp) and isinstance(expr.op, ast.Not):
